@@ -1,7 +1,7 @@
 (* C18  Saving and loading a GMM or its statistics preserves them exactly. *)
 From Coq Require Import List Bool.
 From Coq Require Import String.
-From BLE Require Import Generated.Facts Proofs.H5.
+From BLE Require Import Generated.Facts Proofs.FactsDefs Proofs.H5.
 Import ListNotations.
 Local Open Scope string_scope.
 Local Open Scope list_scope.
